@@ -36,6 +36,13 @@ def byte_ordered(u, n, order):
 
 # ---- match criteria (C06) ----------------------------------------------------------------------------------------------
 
+def valid_op(op):
+    """the accepted operator spellings"""
+    return (op == '==' or op == 'eq' or op == '!=' or op == 'neq' or op == '&lt;' or op == 'lt' or op == '<'
+            or op == '&gt;' or op == 'gt' or op == '>' or op == '&lt;=' or op == 'leq' or op == '<='
+            or op == '&gt;=' or op == 'geq' or op == '>=')
+
+
 def sem_rel(op, a, b):
     """the six mathematical relations in every accepted spelling"""
     return ite(op == '==' or op == 'eq', a == b,
@@ -57,6 +64,12 @@ def sem_comparison(c, packet, cur):
     return sem_rel(c.operator, selected_value(c, packet, cur), coerce_like(selected_value(c, packet, cur), c.required_value))
 
 
+@opaque('rec', 'packet', 'cur', 'bool')
+def sem_cmp(c, packet, cur):
+    """denotation of a Comparison object as a closed term (opaque to clients; revealed in Comparison.evaluate's proof)"""
+    return sem_comparison(c, packet, cur)
+
+
 def cond_side(packet, name, use_calibrated):
     return packet[name] if use_calibrated else packet[name].raw_value
 
@@ -69,6 +82,36 @@ def cond_right(c, packet):
 
 def sem_condition(c, packet):
     return sem_rel(c.operator, cond_side(packet, c.left_param, c.left_use_calibrated_value), cond_right(c, packet))
+
+
+@opaque('rec', 'packet', 'bool')
+def sem_cond(c, packet):
+    """denotation of a Condition object (opaque to clients; revealed in Condition.evaluate's proof)"""
+    return sem_condition(c, packet)
+
+
+@uninterpreted('rec', 'packet', 'bool')
+def sem_and(a, packet):
+    """ANDed group: all its conditions hold and all its nested ORed groups hold"""
+    return all(sem_cond(c, packet) for c in a.conditions) and all(sem_or(o, packet) for o in a.ors)
+
+
+@uninterpreted('rec', 'packet', 'bool')
+def sem_or(o, packet):
+    """ORed group: one of its conditions holds or one of its nested ANDed groups holds"""
+    return any(sem_cond(c, packet) for c in o.conditions) or any(sem_and(a, packet) for a in o.ands)
+
+
+@axiom
+def sem_and_def(a, packet):
+    return sem_and(a, packet) == (forall(lambda i: sem_cond(at(a.conditions, i), packet), 0, len(a.conditions)) and
+                                  forall(lambda i: sem_or(at(a.ors, i), packet), 0, len(a.ors)))
+
+
+@axiom
+def sem_or_def(o, packet):
+    return sem_or(o, packet) == (exists(lambda i: sem_cond(at(o.conditions, i), packet), 0, len(o.conditions)) or
+                                 exists(lambda i: sem_and(at(o.ands, i), packet), 0, len(o.ands)))
 
 
 # ---- calibration (C08) ----------------------------------------------------------------------------------------------------
